@@ -147,15 +147,13 @@ PROPS = {
                       "merge commit with parents (local, remote) at an edit time above the clock and above every edit time of both sides, "
                       "updated, and the entity handed back is the one read at the new head; `nothing` iff the local head contains the remote "
                       "head; the ref only becomes itself, the remote head or the merge commit; clocks never decrease. MergeAll = fold of "
-                      "merge (compared with the implementation on every pull of the replica schedules). PARTIAL: that the fast-forwarded or "
-                      "merged head *reaches* every pack of both sides relies on git ancestry (reach of a commit contains reach of its "
-                      "parents), which is checked by the oracle (no operation lost, every remote operation present), not proved.",
+                      "merge (compared with the implementation on every pull of the replica schedules). Readability is proved as well (no longer left to the oracle): Dag.read accepts a history exactly when it is Readable, a condition on the store alone (read_iff_readable, using that the breadth-first collection always terminates within its fuel and returns every reachable commit once: Lemmas/BfsComplete); joining two readable histories that share a commit by a merge commit above both clocks is readable (merge_readable, via edit times decreasing towards a common root); hence whatever merge decides for an entity readable locally, the head the ref is left at is readable (pull_keeps_readable), for every store and history shape.",
         "level_note": "Trusted: Lean kernel, harness. The identity half of the property (identity merge reports) is C09's subject. The defect "
                       "this check found (scenario 5 handed back the pre-merge local entity) was repaired in /repo, see known_findings.json.",
         "required_theorems": ["mergeDiverged_spec", "mergeDiverged_local_unreadable", "mergeExisting_nothing", "mergeExisting_fastforward",
                               "mergeExisting_diverged", "mergeExisting_nothing_iff", "merge_unreadable_remote", "merge_invalid_entity",
                               "merge_new", "merge_existing", "merge_commit_dominates_remote", "merge_frame", "merge_clock_monotone",
-                              "gen_merge_comparisons", "mergeExisting_keeps_local", "mergeExisting_gets_remote", "mergeDiverged_reaches"],
+                              "gen_merge_comparisons", "mergeExisting_keeps_local", "mergeExisting_gets_remote", "mergeDiverged_reaches", "read_iff_readable", "read_packs_complete", "merge_readable", "pull_keeps_readable"],
         "slices": ["C02", "C09"],
         "rule": "same replica schedules as C01; every pull (Fetch + MergeAll) is one case: the decoded commits reachable from all local and "
                 "remote-tracking heads, the (local, remote) head pairs in ListRefs order, the clocks; compared: per-entity status, new head, "
